@@ -415,10 +415,31 @@ class WorldGen:
                 self.add(w, True, ts, n=n)
 
 
-def world_case(universe, rnd, profile, nops, probe_every=1):
-    g = WorldGen(rnd, profile)
+QUERIES = CAT.queries()
+QASTS = [CAT.q_ast(q) for q in QUERIES]
+BATCH_SIZES = [1, 1, 2, 3, 5, 63, 64, 65, 4294967295]
+
+
+def query_op(g, paths):
+    r = g.r
+    w = r.randrange(2)
+    if g.poisoned[w]:
+        return
+    qi = r.randrange(len(QUERIES)) if r.random() < 0.55 else r.randrange(24)
+    path = r.choice(paths)
+    arg = r.choice(BATCH_SIZES) if path == 3 else 0
+    g.emit(30, w, qi, path, arg, len(QASTS[qi]), QASTS[qi])
+
+
+def world_case(universe, rnd, profile, nops, probe_every=1, qpaths=None, qrate=0.0):
+    g = WorldGen(rnd, profile if profile in WorldGen.PROFILES else "default")
+    if profile in ("query", "prepared"):
+        g.small = True            # queries range over types 0..3
     for i in range(nops):
         g.step()
+        if qpaths and rnd.random() < qrate:
+            for _ in range(rnd.randrange(1, 4)):
+                query_op(g, qpaths)
         if (i + 1) % probe_every == 0:
             g.probe()
     g.probe(extra=6)
@@ -426,7 +447,7 @@ def world_case(universe, rnd, profile, nops, probe_every=1):
     return [1] + universe + g.out
 
 
-def gen_world(profiles, quick_n, thorough_n):
+def gen_world(profiles, quick_n, thorough_n, qpaths=None, qrate=0.0):
     def gen(tier, seed, universe):
         rnd = random.Random(seed)
         n = quick_n if tier == "quick" else thorough_n
@@ -434,11 +455,11 @@ def gen_world(profiles, quick_n, thorough_n):
             prof = profiles[i % len(profiles)]
             k = rnd.random()
             if k < 0.5:
-                yield world_case(universe, rnd, prof, rnd.randrange(4, 16), 1)
+                yield world_case(universe, rnd, prof, rnd.randrange(4, 16), 1, qpaths, qrate)
             elif k < 0.9:
-                yield world_case(universe, rnd, prof, rnd.randrange(16, 45), 2)
+                yield world_case(universe, rnd, prof, rnd.randrange(16, 45), 2 if not qpaths else 5, qpaths, qrate)
             else:
-                yield world_case(universe, rnd, prof, rnd.randrange(60, 140), 7)
+                yield world_case(universe, rnd, prof, rnd.randrange(60, 140), 7 if not qpaths else 20, qpaths, qrate)
     return gen
 
 
@@ -520,3 +541,16 @@ def gen_reserve(tier, seed):
 def nontrivial_reserve(case, obs):
     # non-trivial: at least two threads reserved something and the free list was non-empty, or stress
     return case[0] == 70 or (case[1] > 0 and len(obs) > 12)
+
+
+QUERY_RULE = (WORLD_RULE + ". Query operations interleaved with the history: a catalogue of 110 generated query types "
+              "(nesting depth <= 3 over &T, &mut T, Option, Or, With, Without, Satisfies, tuples; each type describes "
+              "its own AST) asked through query().iter, query_mut, view/view_mut (iteration + random access), "
+              "iter_batched (sizes 1,2,3,5,63,64,65,u32::MAX), PreparedQuery::{query,query_mut,view_mut} (one cached "
+              "prepared query per type shared by both worlds), query_one/query_one_mut/EntityRef::query, "
+              "satisfies and Archetype::access; compared item by item, in order, with reported lengths")
+RESERVE_RULE = ("engine sched: worlds with 0..4 ids on the free list; 2-3 cooperative threads with programs of <= 3 calls "
+                "over reserve_entity / reserve_entities(0..3) / contains, every interleaving of the calls (each is one "
+                "atomic step; yield hook before the atomic op), then flush; plus every split of one reserve_entities(n) "
+                "request across free list and fresh ids for n = 0..6, and real-thread stress runs (supporting). "
+                "Non-trivial = free list non-empty and at least two results, or a stress run")
